@@ -7,7 +7,18 @@
 //! parking_lot's writer preference — is represented here (see DESIGN.md section 5 C19).
 
 use crate::rng::Rng;
+#[cfg(feature = "arc")]
 use koto_memory::verif::LockIntent;
+
+/// stand-in so that this module also compiles in the rc build (where it is never used)
+#[cfg(not(feature = "arc"))]
+#[derive(Clone, Copy, Debug, PartialEq, Eq, Hash)]
+pub enum LockIntent {
+    Read,
+    Write,
+    TryRead,
+    TryWrite,
+}
 use std::cell::RefCell;
 use std::collections::{BTreeSet, HashMap, HashSet};
 use std::sync::{Arc, Condvar, Mutex};
@@ -89,6 +100,10 @@ thread_local! {
 }
 
 /// Installs the process-global hook once
+#[cfg(not(feature = "arc"))]
+pub fn install_global_hook() {}
+
+#[cfg(feature = "arc")]
 pub fn install_global_hook() {
     use std::sync::Once;
     static ONCE: Once = Once::new();
